@@ -19,7 +19,7 @@ from concurrent.futures import ThreadPoolExecutor
 
 VERIF = os.path.dirname(os.path.dirname(os.path.abspath(__file__)))
 REPO = os.environ.get("VF_REPO", "/repo")
-BUILD = os.path.join(VERIF, "build")
+BUILD = os.environ.get("VF_BUILD", os.path.join(VERIF, "build"))  # VF_BUILD: separate build root (used when many trees are checked concurrently)
 
 
 class BuildError(Exception):
